@@ -1,3 +1,3 @@
-CONSTANTS S1 = 1 S2 = 2 S3 = 0
+CONSTANTS S1 = 1 S2 = 2 S3 = 0 TrackLast = FALSE
 SPECIFICATION FairSpec
 PROPERTIES EventuallySent
